@@ -775,8 +775,20 @@ func (e *Exec) mergeStates(ins []*State) *State {
 		for _, s := range ins {
 			t, has := s.heap[k]
 			if has && (t == nil || t.S == "") {
-				ok = false
-				break
+				// forgotten on this path and not read since: name the unknown value if another path knows the
+				// component, so that the join keeps what the other paths know
+				srt := ""
+				for _, s2 := range ins {
+					if t2, ok2 := s2.heap[k]; ok2 && t2 != nil && t2.S != "" {
+						srt = t2.Sort
+					}
+				}
+				if srt == "" {
+					ok = false
+					break
+				}
+				t = e.fresh(srt, k)
+				s.heap[k] = t
 			}
 			if !has {
 				if strings.HasPrefix(k, "L") {
